@@ -27,7 +27,7 @@ CONSTANTS Slots,     \* abstract write slots (bound to concrete methods by the d
           MaxOwn     \* bound on the versions a view saves itself (in memory)
 
 VARIABLES store,     \* Seq(Block): the canonical database, store[h] = block committed at height h
-          canon,     \* [work, pend, mid]: the canonical object (always loaded at Len(store))
+          canon,     \* [work, pend, mid, ro, rog, ghost]: the canonical object (always loaded at Len(store))
           views,     \* [Views -> View]
           lab        \* label of the last step (export, action properties)
 
